@@ -70,9 +70,14 @@ def pool(variant, maxlen):
     T += [lit('a\nb"'), lit('line one\nline two"', lang="en"), lit('a\nb"', dt="http://ex.example/dt"), lit('a\nb""'), lit('\n"'), lit('a\nb"""'), lit("a\nb\\"), lit('"\n'), lit("a\nb'"),
           lit("''" + "'\n"), lit('a\r"'), lit('a\n\\"'), lit('a\n\\\\"'), lit('\n\\"""'), lit('x\\"y'), lit('a\n"\\'),
           # a backslash followed by u / U and hex digits: not an escape, but it looks like one
+          # a backslash followed by a letter that names a control character in an escape (t b n r f): two characters, not one
+          lit("C:\\temp\\new"), lit("\\frac{1}{2}"), lit("^\\bword\\b$", lang="en"), lit("\\r\\n", dt="http://ex.example/dt"), lit("a\\tb"), lit("\\\\t"), lit("\\'"), lit("tab\there\\t"),
           lit("\\u0041"), lit("\\U0001F600"), lit("a\\u00e9b\n"), lit("\\\\u0041"), lit("\\u00"), lit("\\x41")]
     T += [{"k": "iri", "v": u} for u in ("http://example.org/a?", "http://example.org/a;", "http://example.org/a?#frag", "HTTP://EXAMPLE.org/A", "http://example.org/a/./b/../c", "http://example.org/a#",
                                          "http://schema.org/name", "https://schema.org/name", "http://ex.example/T", "svn+ssh://h/p", "z39.50s://h/p", "mailto:a@b.example")]
+    # IRIs that cannot be written between < and > (they build with a warning and are terms like any other)
+    T += [{"k": "iri", "v": u} for u in ("http://ex.example/my file.txt", "http://ex.example/a<b", 'http://ex.example/a"b', "http://ex.example/a{b}", "http://ex.example/a|b", "http://ex.example/a\\b",
+                                         "http://ex.example/a^b", "http://ex.example/a`b", "http://ex.example/a>b")]
     T += [lit("v", dt="http://schema.org/Text"), lit("v", dt="https://schema.org/Text"), lit("v", dt="http://ex.example/T")]
     T += [lit("v", dt="http://ex.example/dt"), lit("v", dt="http://ex.example/DT"), lit("<b>x</b>", dt="http://www.w3.org/1999/02/22-rdf-syntax-ns#XMLLiteral")]
     classes = ["plain", "dquote", "squote", "backslash", "LF", "CR", "TAB", "nonASCII", "nonBMP", "space", "gt"]
@@ -83,6 +88,7 @@ def pool(variant, maxlen):
     return T
 
 
+BAD_IRI_CHARS = ' <>"{}|\\^`'
 VIA = ["pickle0", "pickle1", "pickle2", "pickle3", "pickle4", "pickle5", "copy", "deepcopy", "ctor", "from_n3", "from_n3_nsm", "turtle", "sparql_values", "sparql_base", "sparql_prepared"]
 
 
@@ -105,6 +111,8 @@ def n3_ok(t, how="from_n3"):
     if t["k"] == "var":
         return how in ("from_n3", "from_n3_nsm")      # a variable is no term of a Turtle document or a VALUES block
     if t["k"] == "iri":
+        if any(c in t["v"] for c in BAD_IRI_CHARS) and ":" in t["v"]:
+            return how in ("from_n3", "turtle", "sparql_values")      # n3() declines these (no text: nothing to judge); a text it did produce must read back as the same IRI
         return " " not in t["v"] and t["v"] != "" and ":" in t["v"]
     if t["k"] == "bnode":
         return t["v"].isalnum()
